@@ -1,4 +1,6 @@
-CONSTANT TolerateShadow = FALSE
+CONSTANTS
+  ModeSet = {0, 1, 2, 3}
+  TolerateShadow = FALSE
 SPECIFICATION TraceSpec
 CONSTRAINT HWM
 POSTCONDITION Post
